@@ -44,6 +44,9 @@ def arcovar_marple(x, order):
 
     #   ----------------------------------------------------- Initialization
     x = np.array(x)
+    if x.dtype.kind in 'iub':
+        # integer samples: products must not wrap around
+        x = x.astype(float)
     N = len(x)
 
 
